@@ -28,6 +28,7 @@ func checkC16(c *Ctx) {
 	for _, u := range pm.unknown {
 		r.Undecided("C16/PAIR/classify", siteName(u), p.InstrPos(u.in), "unclassified writer of %s.mbox.messages", u.store)
 	}
+	c.c16DecidedUnderLock(pm)
 	nMem, nFile := 0, 0
 	for _, s := range pm.removes {
 		if s.store == "mem" {
@@ -328,4 +329,220 @@ func (c *Ctx) c16NoAliasedQueue() {
 	if n == 0 {
 		r.Ok(rule, "pkg/extension", "", "no slice field of the brokers is cut back in place")
 	}
+}
+
+// c16DecidedUnderLock: "exactly one deleted event". In the memory store the event for a single
+// removal is emitted by whoever took the message out of the map. That is decided by a lookup and
+// a delete inside one critical section: each delete(mailbox.messages, k) is dominated, in the
+// same function (the locked closure), by a test that a lookup of the same map found an entry.
+// A delete whose presence test was made earlier, under another hold of the lock, lets two
+// removers both find the message; both delete (the second is a no-op) and both announce it.
+func (c *Ctx) c16DecidedUnderLock(pm *pairModel) {
+	p, r := c.P, c.R
+	rule := "C16/ONCE/mem-removal-decided-under-lock"
+	r.Rule(rule, "memory store: every delete on a mailbox's message map is dominated, within the same function (one hold of the lock), by the found-edge of a lookup in that map, or sits in a range over it")
+	n := 0
+	ord := map[string]int{}
+	for _, rs := range pm.removes {
+		if rs.store != "mem" || rs.kind != "delete" {
+			continue
+		}
+		n++
+		call := rs.in.(*ssa.Call)
+		fn := rs.fn
+		cons := siteCons(p, rs.in, ord, "delete")
+		mapV := call.Call.Args[0]
+		sameMap := func(v ssa.Value) bool {
+			return v == mapV || (eng.LoadedField(v) != nil && eng.SameField(eng.LoadedField(v), eng.LoadedField(mapV)))
+		}
+		ok := false
+		ctxFn := fn
+		var foundEdge func(fn *ssa.Function, at *ssa.BasicBlock) bool
+		foundEdge = func(fn *ssa.Function, at *ssa.BasicBlock) bool {
+			ok := false
+			for _, b := range fn.Blocks {
+				if len(b.Succs) != 2 {
+					continue
+				}
+				for k := 0; k < 2; k++ {
+					if !eng.EdgeDominates(b, k, at) {
+						continue
+					}
+					// v != nil with v a lookup, or the comma-ok of a lookup
+					if rel, isRel := eng.EdgeRel(b, k); isRel && rel.Op == token.NEQ {
+						x, y := rel.X, rel.Y
+						if eng.IsNilConst(x) {
+							x, y = y, x
+						}
+						if eng.IsNilConst(y) {
+							// a captured variable: `*m = lookup; t = *m; if t != nil`
+							if u, isU := x.(*ssa.UnOp); isU && u.Op == token.MUL {
+								blk, idx := u.Block(), -1
+								for i, in := range blk.Instrs {
+									if in == ssa.Instruction(u) {
+										idx = i
+									}
+								}
+								for hops := 0; hops < 4 && blk != nil; hops++ {
+									for i := idx - 1; i >= 0; i-- {
+										if st, isSt := blk.Instrs[i].(*ssa.Store); isSt && st.Addr == u.X {
+											if lk, isLk := st.Val.(*ssa.Lookup); isLk && sameMap(lk.X) {
+												ok = true
+											}
+											blk = nil
+											break
+										}
+										if _, isCall := blk.Instrs[i].(*ssa.Call); isCall {
+											blk = nil // the cell may have been rewritten by the callee
+											break
+										}
+									}
+									if blk == nil || len(blk.Preds) != 1 {
+										break
+									}
+									blk = blk.Preds[0]
+									idx = len(blk.Instrs)
+								}
+							}
+							for _, al := range append(eng.ValueAliases(x), x) {
+								if lk, isLk := eng.ResolveLocalLoad(al).(*ssa.Lookup); isLk && sameMap(lk.X) {
+									ok = true
+								}
+								if lk, isLk := al.(*ssa.Lookup); isLk && sameMap(lk.X) {
+									ok = true
+								}
+							}
+						}
+					}
+					if v, pol, isT := eng.CondTruth(b, k); isT && pol {
+						if ex, isEx := v.(*ssa.Extract); isEx && ex.Index == 1 {
+							if lk, isLk := ex.Tuple.(*ssa.Lookup); isLk && sameMap(lk.X) {
+								ok = true
+							}
+						}
+					}
+				}
+			}
+			return ok
+		}
+		ok = foundEdge(fn, call.Block())
+		// the delete sits in a callback that a lookup helper of the package invokes on its found
+		// edge, inside the helper's critical section (findMessage(…, func(mb, m) { delete(…) }))
+		if !ok && fn.Parent() != nil {
+			var handed []*ssa.Function
+			eng.EachInstr(fn.Parent(), func(x ssa.Instruction) {
+				cl, isCall := x.(*ssa.Call)
+				if !isCall {
+					return
+				}
+				g := eng.StaticCallee(cl.Common())
+				if g == nil || !eng.InModule(g) {
+					return
+				}
+				for _, a := range cl.Call.Args {
+					if mc, isMC := a.(*ssa.MakeClosure); isMC && mc.Fn == ssa.Value(fn) {
+						handed = append(handed, g)
+					}
+					if f0, isF := a.(*ssa.Function); isF && f0 == fn {
+						handed = append(handed, g)
+					}
+				}
+			})
+			for _, g := range handed {
+				var scope []*ssa.Function
+				scope = append(scope, g)
+				scope = append(scope, g.AnonFuncs...)
+				nInv, nOK := 0, 0
+				for _, h := range scope {
+					h := h
+					eng.EachInstr(h, func(x ssa.Instruction) {
+						cl, isCall := x.(*ssa.Call)
+						if !isCall || cl.Call.IsInvoke() || eng.StaticCallee(cl.Common()) != nil {
+							return
+						}
+						if !types.Identical(cl.Call.Value.Type().Underlying(), fn.Signature) {
+							return
+						}
+						nInv++
+						if foundEdge(h, cl.Block()) {
+							nOK++
+							ctxFn = h
+						}
+					})
+				}
+				if nInv > 0 && nInv == nOK {
+					ok = true
+				}
+			}
+		}
+		// a range over the same map
+		for _, h := range loopHeaders(call.Block()) {
+			for _, in := range h.Instrs {
+				if nx, isN := in.(*ssa.Next); isN {
+					if rg, isR := nx.Iter.(*ssa.Range); isR && sameMap(rg.X) {
+						ok = true
+					}
+				}
+			}
+		}
+		// the removed message is kept for whoever announces it: the value the lookup found is
+		// stored somewhere (a captured variable, a list) — a removal whose message is only tested
+		// and dropped cannot be followed by an event or a size notice for that message
+		if ok {
+			kept := false
+			eng.EachInstr(ctxFn, func(x ssa.Instruction) {
+				st, isSt := x.(*ssa.Store)
+				if !isSt {
+					return
+				}
+				v := st.Val
+				if lk, isLk := v.(*ssa.Lookup); isLk && sameMap(lk.X) {
+					kept = true
+				}
+				if ex, isEx := v.(*ssa.Extract); isEx {
+					if lk, isLk := ex.Tuple.(*ssa.Lookup); isLk && sameMap(lk.X) {
+						kept = true
+					}
+				}
+				if u, isU := v.(*ssa.UnOp); isU && u.Op == token.MUL {
+					// re-loaded from the variable the lookup was stored in
+					eng.EachInstr(ctxFn, func(y ssa.Instruction) {
+						if s2, isS2 := y.(*ssa.Store); isS2 && s2.Addr == u.X && s2 != st {
+							if lk, isLk := s2.Val.(*ssa.Lookup); isLk && sameMap(lk.X) {
+								kept = true
+							}
+						}
+					})
+				}
+			})
+			if !kept {
+				// …or returned to the caller (a take(id) helper run under the caller's lock)
+				eng.EachInstr(ctxFn, func(x ssa.Instruction) {
+					rt, isRt := x.(*ssa.Return)
+					if !isRt || x.Parent() != ctxFn {
+						return
+					}
+					for _, rv := range rt.Results {
+						if eng.BackSlice(rv, func(v ssa.Value) bool {
+							lk, isLk := v.(*ssa.Lookup)
+							return isLk && sameMap(lk.X)
+						}) {
+							kept = true
+						}
+					}
+				})
+			}
+			if !kept {
+				r.Bad(rule, cons+":kept", p.InstrPos(call), "the message found here is deleted and kept nowhere: nothing after the critical section can announce its deletion or tell the size enforcer about it")
+			} else {
+				r.Ok(rule, cons+":kept", p.InstrPos(call), "the removed message is handed out of the critical section")
+			}
+		}
+		if ok {
+			r.Ok(rule, cons, p.InstrPos(call), "the entry is found and deleted inside one function (one hold of the mailbox lock)")
+		} else {
+			r.Bad(rule, cons, p.InstrPos(call), "nothing in %s establishes that the entry is still there when it is deleted: the presence test was made under an earlier hold of the lock (or not at all), so two overlapping removals of one message — two clients, a client and the retention scan, an explicit delete racing the size enforcer — both see it, both pass here, and each announces a deletion that happened once", shortFn(fn))
+		}
+	}
+	r.Floor(rule, "delete sites on the memory store's message maps", n, 1)
 }
